@@ -161,3 +161,13 @@ func VerifDetectBodyFontSize(sizes []float64, nlines []int) float64 {
 	}
 	return NewHeadingDetector().detectBodyFontSize(paras)
 }
+
+// VerifListCandidates exposes (*ListDetector).identifyListCandidates: for every paragraph
+// the ListType analyzeAsListItem finds (ListTypeUnknown when it is no list item).
+func VerifListCandidates(paragraphs []Paragraph) []ListType {
+	out := make([]ListType, len(paragraphs))
+	for _, c := range NewListDetector().identifyListCandidates(paragraphs) {
+		out[c.paragraphIndex] = c.listType
+	}
+	return out
+}
